@@ -6,26 +6,26 @@ import os
 ROOT = os.path.dirname(os.path.abspath(__file__))
 
 CHECKS = {
-    'C01': ('Sched', 'TLC exhaustive on Sched.tla (3 algorithms, 64 programs, every interleaving of requests/dispatch/replies/reload) with the action property C01_Release; every transition of a smaller instance and simulated behaviours of larger ones replayed on the real schedule/farm/dag code; TLC validates each recorded step against Blocked() computed from the declared inputs and the ground-truth in-flight set decoded from worker transports', '5.C01'),
-    'C02': ('Sched', 'TLC exhaustive on Sched.tla with C02_Step (complete + minimal re-scheduling after each success reply, value-level declarations); real-code replays validated step by step by TLC (consumers = declared value-level inputs); the data-plane end state is checked by spec/Data.tla runs when present', '5.C02'),
-    'C03': ('Sched', 'TLC exhaustive with OneAtATime / NoDrop / ReplyRecorded; on real-code traces TLC checks one-at-a-time on the wire, hand-out at most once, messages stay queued, every live reply recorded exactly once and propagated, crew view = in-flight bag', '5.C03'),
-    'C04': ('Sched', 'TLC exhaustive with IdleEmpty / Progress / NoStuck (+ liveness Quiesce under FairSpec in thorough); on real-code traces TLC checks IdleEmpty after every event and Progress on every dispatch, and every schedule is drained to quiescence', '5.C04'),
+    'C01': ('Sched', 'TLC exhaustive on Sched.tla (3 algorithms, 64 programs, every interleaving of requests/dispatch/replies/reload) with the action property C01_Release (judged at the release decision and at the hand-out, also when a dispatch pass is cut short by an exception and the leftover jobs are served later); every transition of a smaller instance and simulated behaviours of larger ones replayed on the real schedule/farm/dag code; TLC validates each recorded step against Blocked() computed from the declared inputs and the ground-truth in-flight set decoded from worker transports', '5.C01'),
+    'C02': ('Sched', 'TLC exhaustive on Sched.tla with C02_Step (complete + minimal re-scheduling after each success reply, value-level declarations); real-code replays validated step by step by TLC (consumers = declared value-level inputs); the end state (store at quiescence = from-scratch run, every execution justified, nobody owed a run; spec/Sched_Data.tla) is checked with an abstract worker, with the real worker.Context.run + real shelve store (half of the histories with algorithms that save twice per run) and with the real worker entry point over in-memory sockets', '5.C02'),
+    'C03': ('Sched', 'TLC exhaustive with OneAtATime / NoDrop / ReplyRecorded / ReleasedWasPending, including dispatch passes that raise mid-batch (TickFault, jobs held in farm._jobs) and reloads with late replies; on real-code traces TLC checks one-at-a-time on the wire, hand-out at most once, messages stay queued, every live reply recorded exactly once and propagated, crew view = in-flight bag', '5.C03'),
+    'C04': ('Sched', 'TLC exhaustive with IdleEmpty / Progress / NoStuck / HeldFlushed (+ liveness Quiesce under FairSpec in thorough); on real-code traces TLC checks IdleEmpty after every event and Progress on every dispatch, and every schedule is drained to quiescence', '5.C04'),
     'C05': ('Sched', 'TLC exhaustive with C05_Contained over every state in which a non-success reply can arrive; on real-code traces TLC checks withdrawal from all transitive dependents, the frame condition on all other work, nothing triggered, outcome recorded (chronicle file read back)', '5.C05'),
-    'C10': ('Lifecycle', 'TLC exhaustive on Lifecycle.tla (every order of background-step completions vs. triggers from their real sources, <=3 submissions, environment toggles, reset/archive cycles) with Edges/Rest/Active/Rejected/ArchiveReturns and the liveness property Return under FairSpec; every transition of a smaller instance + simulated behaviours executed on the real FSM (real transitions machine, real submit Process steps, real cmd_reset, real farm.dispatch) with held background steps; TLC validates every recorded step incl. the path of states passed through, out-of-turn triggers, and rest after draining', '5.C10'),
-    'C11': ('Farm', 'TLC exhaustive on Farm.tla (registrations with matching/stale revision, disconnects, status polls, dispatch ticks, replies, reload and archive cycles; 3-4 worker connections) with Eligible/Silent/Leave/Stay/Fields/FreshLarger/DrawnIff; transitions + simulated behaviours replayed on the real Hand protocol objects, dispatch, notify_all; TLC validates the messages decoded from each fake worker transport against the ground-truth worker table it maintains itself', '5.C11'),
-    'C12': ('Lifecycle', 'TLC exhaustive on Lifecycle.tla with the poller split into observe / callback (OnlyWhenAllowed, ExactlyOnce, NotLost, Refused) and the liveness property EventuallyIfIdle; replays on the real FSM with the real poller functions running in gated threads and their deferred callback delivered as a separate event; update_trigger is wrapped to log the farm/scheduler state at the instant it is called; TLC validates each step and the quiescent end state', '5.C12'),
+    'C10': ('Lifecycle', 'TLC exhaustive on Lifecycle.tla (every order of background-step completions vs. triggers from their real sources, <=3 submissions, environment toggles, reset/archive cycles) with Edges/Rest/Active/Rejected/ArchiveReturns and the liveness property Return under FairSpec; every transition of a smaller instance + simulated behaviours executed on the real FSM (real transitions machine, real submit Process steps, real cmd_reset, real farm.dispatch) with held background steps; TLC validates every recorded step incl. the path of states passed through, out-of-turn triggers where the documented machine forbids them and running_trigger where it allows it while a background step is outstanding (RawRun), and rest after draining', '5.C10'),
+    'C11': ('Farm', 'TLC exhaustive on Farm.tla (registrations with matching/stale revision, disconnects, status polls, dispatch ticks, replies, reload and archive cycles; 3-4 worker connections) with Eligible/Silent/Leave/Stay/Fields/FreshLarger/DrawnIff/RunIdFromEventOnly; transitions + simulated behaviours replayed on the real Hand protocol objects, dispatch, notify_all; TLC validates the messages decoded from each fake worker transport against the ground-truth worker table it maintains itself', '5.C11'),
+    'C12': ('Lifecycle', 'TLC exhaustive on Lifecycle.tla with the poller split into observe / callback (OnlyWhenAllowed, ExactlyOnce, NotLost, Refused) and the liveness property EventuallyIfIdle; the strongest priority REQUESTED so far is accumulated by the trace specification from the submissions themselves (StrongestRequested, StrongestWaits), unrecognised priority strings included; a focus instance explores two submissions against a loaded pipeline draining in every order; System.tla composes the real FSM with the real scheduler and judges the fire against ground truth; replays on the real FSM with the real poller functions running in gated threads and their deferred callback delivered as a separate event; update_trigger is wrapped to log the farm/scheduler state at the instant it is called; TLC validates each step and the quiescent end state', '5.C12'),
     'C13': ('DbLock', 'TLC exhaustive on DbLock.tla (3-4 clients; request / poll / release / disconnect by any client at every step) with Mutex, ToldTruth, CrashFree, GrantNext and the liveness properties NoStarve / LockFreed under fairness; EVERY transition of the 3-client instance + simulated 4-client behaviours executed on real comms.Worker protocol objects with one virtual clock per connection and real pickled commands in 1/7-byte chunks, partly through the real blocking client functions; TLC validates lock bit, ownership flags and every status message decoded from the client transports', '5.C13'),
-    'C14': ('Frame', 'TLC exhaustive on Frame.tla (labelled byte streams, transcribed reassembly loop and TwistedWrapper.process, all 32 handshake validity assignments, every chunking as a path); every chunking of short streams on the three real protocol classes, simulated chunkings of handshake streams, and real-length streams at every single / pair of split positions; what reached the application is recorded after every chunk and validated by TLC (prefix, reassembly, gate, fail-closed, coalesced delivery)', '5.C14'),
+    'C14': ('Frame', 'TLC exhaustive on Frame.tla (labelled byte streams, transcribed reassembly loop and TwistedWrapper.process, all 32 handshake validity assignments, every chunking as a path); every chunking of short streams on the three real protocol classes and on the real blocking reader message.receive (socket with short reads at every segment boundary), simulated chunkings of handshake streams, and real-length streams at every single / pair of split positions; what reached the application is recorded after every chunk and validated by TLC (prefix, reassembly, gate, fail-closed, coalesced delivery)', '5.C14'),
     'C16': ('Gate', 'TLC enumerates ~9.8k package descriptors (15 factory-kind subsets x 8 dependency shapes x 49 rule clauses at every applicable position) and checks the transcribed _walk/_verify traversal against Accept(d) = no violation; every descriptor (stratified sample in quick) is materialised on disk and judged by the real tools.compliant._verify (and the CLI for a sample); accepted packages must pass dag.Construct, schedule.build, organize, next_job_batch; TLC validates verdict = Accept(d) on the records', '5.C16'),
     'C19': ('FrontEnd', 'TLC enumerates 18k (quick) / 400k (thorough) request paths over a tree with two roots, outside files and in/out symlinks, checks the transcribed _static against the declarative jail, and 9.7k endpoint x method x certificate x hook situations read from the real routing table; each is executed on the real fe._static, StaticContent.render_GET, a real twisted Site, DynamicContent.render with recording handlers; TLC validates which marker bytes came back / whether the handler ran', '5.C19'),
-    'C20': ('Moment', 'TLC checks the transcribed _delay against Occ(spec) (Computable, Lands, NotFurther) on 126 specifications x 4384 instants of a 3-year calendar, and the firing model MomentFire (FireTargets, BootFires, BootOnce, Armed, Recurs); the real _delay under an injected clock for every/sampled (spec, instant) pair and the real defer/periodics/complete with the virtual reactor clock for every transition of the firing model are validated by TLC; the fires-once defect of defer/complete is a recorded known finding', '5.C20'),
+    'C20': ('Moment', 'TLC checks the transcribed _delay against Occ(spec) (Computable, Lands, NotFurther) on 126 specifications x 4384 instants of a 3-year calendar, and the firing model MomentFire (FireTargets, BootFires, BootOnce, Armed, Recurs); the real _delay under an injected clock for every/sampled (spec, instant) pair and the real defer/periodics/complete with the virtual reactor clock for every transition of the firing model are validated by TLC; the fires-once defect of defer/complete was repaired (commit 37363f0) after the repair had been model-checked as the rearm variant of MomentFire', '5.C20'),
     'C15': ('Version', 'TLC checks the transcribed comparison operators / newer() against the lexicographic order on all 729 version pairs, and the transcribed _diff/build against the declarative Scheduled(a) over engines x persisted version lists x bump choices at the three levels; the real operators on 8 real Version subclasses for every pair and the real version.current + schedule.build (+ db.versions() on a real shelve DB in thorough) for every enumerated case are validated by TLC', '5.C15'),
     'C17': ('Search', 'TLC checks Denote(Scrub(e)) = Denote(e) on all 65,641 run-id expressions and the transcribed shelve find/facet against the declarative Match/FindOK/Pages/FacetOK over small databases x constraint combinations x pages; the real _scrub (3 input forms) and the real shelve search + fe.api wrappers on real shelve files are executed for the TLC-generated cases and validated by TLC', '5.C17'),
     'C06': ('Store', 'TLC exhaustive on Store.tla (catalogue tables, prime keys, blobs and a reference dictionary; updates, loads at exact/absent/future runs, removes, version bumps at three levels, target additions, close/reopen over prefix-related names) with LoadOK; every transition of the small instance + pseudo-random depth-25 histories executed on real shelve files through the in-memory client/server bridge (real Interface._update/_load, Connector, comms.Worker); TLC validates every load result against the reference dictionary', '5.C06'),
-    'C07': ('StoreCrash', 'TLC exhaustive on StoreCrash.tla (an update as six separately enabled steps, Crash enabled between any two, reopen, purge; 12 kill sites) with NamedByDigest, NoDangling, NoveltyExact, SingleCopy, and the wrong design (record before move) required to fail; histories ending in every kill site are executed in forked child processes on real files (os._exit injected at the chosen step), the parent reopens the database from the files; TLC validates the directory listing with recomputed digests, the prime table and the reported novelty flags', '5.C07'),
+    'C07': ('StoreCrash', 'TLC exhaustive on StoreCrash.tla (an update as six separately enabled steps, Crash enabled between any two, reopen, purge; 12 kill sites; MoveFails: the rename into the store fails and the process lives on) with NamedByDigest, NoDangling, NoveltyExact, SingleCopy, and the wrong design (record before move) required to fail; histories ending in every kill site are executed in forked child processes on real files (os._exit injected at the chosen step), the parent reopens the database from the files; TLC validates the directory listing with recomputed digests, the prime table and the reported novelty flags', '5.C07'),
     'C08': ('Store', 'same module as C06 with the clauses Bijective, Survives, Resolves, NextRun, ExactNames (remove / reset / trace touch exactly the entries with those exact names) on real shelve files, tables and indices logged after each operation and after reopen', '5.C08'),
     'C09': ('Dag', 'TLC runs the transcription of dag.Construct (every _parents iteration order) on the bounded program domain and checks every clause against the declarative graph; every program is materialised as an engine, the real Construct runs on it twice (factory order reversed) and TLC validates the record with the same clauses', '5.C09'),
-    'C18': ('Chronicle', 'TLC checks the transcribed day-walk of chronicle.find (and of the two front-end callers) against the declarative window on three calendars straddling year end, leap day and month ends, and AppendOnce on the journal files; the real append/find and fe.api.schedule.failed/succeeded run on real files under an injected clock for TLC-generated histories and queries; TLC validates every answer', '5.C18'),
+    'C18': ('Chronicle', 'TLC checks the transcribed day-walk of chronicle.find (and of the two front-end callers) against the declarative window on three calendars straddling year end, leap day and month ends, and AppendOnce on the journal files; the real append/find and fe.api.schedule.failed/succeeded run on real files under an injected clock for TLC-generated histories and queries; TLC validates every answer; the first sentence (every completed unit recorded once) is also validated on scheduler histories through the real Hand._res -> schedule.complete -> chronicle.append path (clause C18.CompletedOnce of Sched_Trace.tla)', '5.C18'),
 }
 
 NOT_YET = {}
@@ -74,6 +74,8 @@ def main():
             {'name': 'Version', 'path': 'spec/Version.tla', 'serves_properties': ['C15'], 'kind_free_text': 'TLA+ version order + version-diff scheduling at (re)load; harness/version_h.py'},
             {'name': 'Search', 'path': 'spec/Search.tla', 'serves_properties': ['C17'], 'kind_free_text': 'TLA+ run-id expression normaliser + find/facet/paging reference and transcription; harness/search_h.py on real shelve files'},
             {'name': 'Moment', 'path': 'spec/Moment.tla', 'serves_properties': ['C20'], 'kind_free_text': 'TLA+ calendar + time-to-event (Moment) and timer firing (MomentFire); harness/moment_h.py'},
+            {'name': 'System', 'path': 'spec/System.tla', 'serves_properties': ['C12'], 'kind_free_text': 'TLA+ composition of the life-cycle FSM with the scheduler/farm ground truth; System_Gen, System_Trace; harness/compose_h.py runs the real FSM on top of the real scheduler'},
+            {'name': 'SchedData', 'path': 'spec/Sched_Data.tla', 'serves_properties': ['C02'], 'kind_free_text': 'TLA+ data plane on top of Sched (sources, stored values, executions, owed runs); Sched_Data_Gen, Sched_Data_Trace; harness/data_h.py (abstract worker), e2e_h.py (real worker.Context.run + real shelve), proto_h.py (real worker entry point over in-memory sockets)'},
             {'name': 'Lifecycle', 'path': 'spec/Lifecycle.tla', 'serves_properties': ['C10', 'C12'], 'kind_free_text': 'TLA+ spec of the pipeline FSM, submit crossroads and pollers (safety + liveness); Lifecycle_Gen, Lifecycle_Trace; harness/life_h.py (gated poller threads)'},
         ],
         'checks': checks,
